@@ -544,6 +544,9 @@ fn sibling_cases() -> Vec<A> {
         A::el("", "p").attr(FOREIGN, "k", "v").decl("f", FOREIGN),
         A::el(FOREIGN, "x").decl("", FOREIGN),
         A::el("", "span").child(A::el(SVG, "svg").child(A::el("", "p"))),
+        // void elements inside an island that gets its default namespace from the serialiser
+        A::el(MATHML, "math").child(A::el("", "br")),
+        A::el(SVG, "svg").child(A::el("", "span").child(A::el("", "BR"))).child(A::el(SVG, "g")),
         A::comment("c"),
         A::pi("pi", Some("d")),
         A::pi("pi", Some("a>b")),
